@@ -113,14 +113,6 @@ def import_closure(main, ddppath):
     return order
 
 
-def hashable_module_name(path):
-    """helper.go:143-157 getHashableModuleName"""
-    s = path.replace("/", "_").replace(":", "_")
-    if s.endswith(".ddp"):
-        s = s[:-4]
-    return "ddp_" + s
-
-
 # ------------------------------------------------------------------------------------------------
 # building one source in one configuration
 # ------------------------------------------------------------------------------------------------
@@ -133,6 +125,7 @@ class Builder:
         self.duden_dir = os.path.join(b.dir, "Duden") + os.sep
         self.cpu = dict(kddp_main=0, kddp_module=0, duden_objects_built=0, duden_objects_reused=0)
         self.lock = threading.Lock()
+        self.initsyms = {}
 
     def module_object(self, path, opt, out):
         """one imported module as its own object: compiled like a main module (interface.go:140 passes isMainModule=true to
@@ -234,13 +227,23 @@ class Builder:
         m = re.search(r"multiple definition of `[^']*'", l.stderr)
         return m.group(0) if m else l.stderr[-300:]
 
-    def check_closure(self, obj, main, clo):
-        """the init functions the separately compiled main object references must be exactly those of the parsed closure"""
-        p = subprocess.run(["nm", "-u", obj], capture_output=True, text=True, timeout=60)
-        want = {hashable_module_name(m) + "_init" for m in clo}
-        got = {l.split()[-1] for l in p.stdout.splitlines() if l.split() and l.split()[-1].startswith("ddp_") and l.split()[-1].endswith("_init")}
-        got.discard(hashable_module_name(os.path.abspath(main)) + "_init")
-        return sorted(got - want), sorted(want - got)
+    def init_symbols(self, obj, defined):
+        p = subprocess.run(["nm", "--defined-only" if defined else "-u", obj], capture_output=True, text=True, timeout=60)
+        return {l.split()[-1] for l in p.stdout.splitlines() if l.split() and l.split()[-1].startswith("ddp_") and l.split()[-1].endswith("_init")}
+
+    def check_closure(self, obj, modobjs):
+        """the module-init functions the separately compiled main object calls (one per module of the transitive import closure
+        as the COMPILER sees it, compiler.go:2278-2302) must all be defined by the module objects the import scan produced"""
+        have = set()
+        for m in modobjs:
+            with self.lock:
+                s = self.initsyms.get(m)
+            if s is None:
+                s = self.init_symbols(m, True)
+                with self.lock:
+                    self.initsyms[m] = s
+            have |= s
+        return sorted(self.init_symbols(obj, False) - have)
 
 
 def recipe_text(b):
@@ -336,10 +339,14 @@ def src_c08_split(meta, prog):
     (everything public), the main file imports it and holds the top-level statements"""
     vt = {}
     glob = c08gen.r_stmts(prog["globals"], vt, 0)
-    full = c08gen.render(dict(globals=prog["globals"], funs=prog["funs"], main=[]))
+    full = c08gen.render(dict(globals=prog["globals"], funs=prog["funs"], main=prog["main"]))    # main only decides the imports
+    full = full[:len(full) - len("\n".join(c08gen.r_stmts(prog["main"], dict(vt), 0)) + "\n")]
     gtxt = "\n".join(glob)
-    assert full.startswith(c08gen.PRELUDE + gtxt), "unexpected layout of c08gen.render"
-    funs = full[len(c08gen.PRELUDE) + len(gtxt):]
+    end = 'zeige den Datensatz <x>"\n\n'      # last line of the prelude (imports, Kombination, show functions)
+    assert end in full, "unexpected layout of c08gen.render"
+    pre = full[:full.index(end) + len(end)]
+    assert full[len(pre):].startswith(gtxt), "unexpected layout of c08gen.render"
+    funs = full[len(pre) + len(gtxt):]
     gl = []
     for line in glob:
         for a, bb in PUBDECL:
@@ -347,7 +354,7 @@ def src_c08_split(meta, prog):
                 line = bb + line[len(a):]
                 break
         gl.append(line)
-    lib_txt = publicise(c08gen.PRELUDE) + "\n".join(gl) + publicise(funs)
+    lib_txt = publicise(pre) + "\n".join(gl) + publicise(funs)
     main_txt = 'Binde "Duden/Ausgabe" ein.\nBinde "Duden/Listen" ein.\nBinde "lager" ein.\n\n' + "\n".join(c08gen.r_stmts(prog["main"], vt, 0)) + "\n"
     return Source("c08gen-split", {"prog.ddp": main_txt, "lager.ddp": lib_txt}, "prog.ddp", meta=dict(meta, gen=meta.get("kind")), prog=prog)
 
@@ -754,13 +761,13 @@ class Runner:
             if r["stage"] != "ok":
                 extra = ""
                 if not ml and r["stage"] == "link" and os.path.exists(exe + ".o"):
-                    unk, _ = self.bu.check_closure(exe + ".o", s.path, clo)
+                    unk = self.bu.check_closure(exe + ".o", modobjs)
                     if unk:
                         extra = " [modules referenced by the object but not found by the import scan: %s]" % unk
                 res[cfg] = ("build", r["stage"], (r["out"][-1500:] + extra))
                 continue
             if not ml:
-                unk, unused = self.bu.check_closure(exe + ".o", s.path, clo)
+                unk = self.bu.check_closure(exe + ".o", modobjs)
                 if unk:
                     res[cfg] = ("build", "closure", "the object references module init functions the import scan did not find: %s" % unk)
                     continue
@@ -991,7 +998,7 @@ def shrink_prog(rn, s, key, budget=24):
                 del (q["main"] if where == "main" else q["funs"][where]["body"])[i]
                 try:
                     ref = c08gen.reference(q)
-                    if ref[0] == "fuel" or ref[2] & {"S", "D"}:
+                    if ref[0] == "fuel" or "D" in ref[2]:
                         continue
                     t = mk(cur.meta, q)
                     budget -= 1
@@ -1038,15 +1045,15 @@ def main():
                 except Exception as ex:
                     log("[corpus] unreadable %s: %s" % (fn, ex))
     ncorpus = len(sources)
-    dropped = dict(fuel=0, undefined_S_D=0)
+    dropped = dict(fuel=0, undefined_D=0)
 
     def usable(p):
         r = c08gen.reference(p)
         if r[0] == "fuel":
             dropped["fuel"] += 1
             return False
-        if r[2] & {"S", "D"}:
-            dropped["undefined_S_D"] += 1
+        if "D" in r[2]:
+            dropped["undefined_D"] += 1
             return False
         return True
     # (a) c08gen programs
@@ -1069,7 +1076,7 @@ def main():
                 cells.append((m, p))
         cells += [x for x in mat if x[0]["construct"] == "return"][:1]
         shp, mat = shp2[:8], cells[:6]
-    nrand = 6 if quick else 150
+    nrand = 5 if quick else 150
     g_all = c08gen.RandGen(rng)
     rnd = []
     while len(rnd) < nrand:
@@ -1084,11 +1091,11 @@ def main():
     for m, p in [pool[i] for i in sorted(rng.sample(range(len(pool)), min(nsplit, len(pool))))]:
         sources.append(src_c08_split(m, p))
     # (b) Duden programs
-    sources += src_duden(rng, 8 if quick else 80)
+    sources += src_duden(rng, 6 if quick else 80)
     if not quick:
         sources += [Source("duden", {"prog.ddp": t}, "prog.ddp", meta=dict(template=i)) for i, t in DudenGen(rng).every_template()]
     # (c2) multi-module programs
-    sources += [multi_module(rng, i) for i in range(7 if quick else 60)]
+    sources += [multi_module(rng, i) for i in range(6 if quick else 60)]
     # (e) arithmetic whose LLVM instruction is undefined for the operands (and controls inside the domain)
     sources += src_arith(rng, 6 if quick else 64, 3 if quick else 56)
     # (d) upstream goldens
@@ -1215,13 +1222,13 @@ def main():
         goldens_not_compilable_in_this_sandbox=uncompilable, sanitizer_sources=len(asan_pool), sanitizer_level_differences=n_asan_diff, build_counters=rn.bu.cpu, recipes=recipe_text(b),
         nondeterministic_in_every_configuration=nondet_everywhere, modules_separate_not_buildable=sep_unbuildable, raw_O0_separate_objects_link=raw_probe,
         rule="evaluations = executable runs (source x configuration, each executable twice; plus sanitizer-flavour runs and attribution/shrink re-runs); distinct_nontrivial = distinct source texts that built and whose baseline run (O0, everything linked) printed something; every source prints the state it mutates",
-        distribution="(a) c08gen: construct x mutation x type matrix, aliasing shapes, random programs (2-4 globals, 1-3 functions, value/Referenz parameters, aliasing bias 0.5-0.6), without the programs whose reference run flags S or D; "
+        distribution="(a) c08gen: construct x mutation x type matrix, aliasing shapes, random programs (2-4 globals, 1-3 functions, value/Referenz parameters, aliasing bias 0.5-0.6), without the programs whose reference run flags D; "
                      "(b) straight-line programs of 12-28 statements drawn uniformly from %d call templates over Duden/Listen, Texte, Mathe, Zahlen with random literals (thorough: plus one program per template); "
                      "(c) c08gen programs cut into main + module, and main + 2 own modules (public Kombination, globals, functions with Referenz parameters; selective or whole import; second module importing the first in half of them); "
                      "(d) upstream goldens of tests/testdata/{kddp,stdlib}; "
                      "(e) one arithmetic operation per program whose LLVM instruction (srem, shl, lshr, fptosi) is undefined or poison for the operands, operands as literals / globals / parameters / list elements, and the same operations inside their domain as controls"
                      % len(DudenGen(rng).templates()),
-        excluded="c08gen programs whose value-semantics reference run flags S (assignment of a variable to itself through aliases) or D (Referenz to a part of a variable whose container the callee replaces): undefined at every level (C08 findings), they crash nondeterministically; goldens that read stdin/argv/clock/random/file system/environment or need pcre2/libarchive"))
+        excluded="c08gen programs whose value-semantics reference run flags D (a Referenz to a part of a variable whose container the callee replaces): undefined at every level (a C08 finding), they crash nondeterministically; programs flagged S (assignment of a variable to itself through aliases) are included since /repo commit 6711de1 made that defined; goldens that read stdin/argv/clock/random/file system/environment or need pcre2/libarchive"))
     ck.sample(dict(kind="c08gen", configurations=12, expected="identical (class, stdout, exit status/error message) in all of them"))
     for s in sources:
         if s.kind in ("modules", "duden", "arith") and s.kind not in [x.get("kind") for x in ck.cov["samples"]]:
